@@ -108,6 +108,33 @@ theorem set_last {α} (l : List α) (r : α) (hne : l ≠ []) : l.set (l.length 
   have : l.length - 1 + 1 = l.length := by omega
   rw [this, List.drop_length]
 
+theorem getIdx_map {α β} (f : α → β) (l : List α) (i : Int) : Py.getIdx (l.map f) i = (Py.getIdx l i).map f := by
+  unfold Py.getIdx
+  rw [List.length_map]
+  cases Py.normIdx l.length i with
+  | none => rfl
+  | some k => simp
+
+theorem clampIdx_neg (n k : Nat) (hk : k ≤ n) (hk1 : 1 ≤ k) : Py.clampIdx n (-(k : Int)) = n - k := by
+  unfold Py.clampIdx
+  have h1 : -(k : Int) < 0 := by omega
+  have h2 : ¬ (-(k : Int) + (n : Int) < 0) := by omega
+  simp only [h1, if_true, h2, if_false]
+  omega
+
+/-- `l[-k:]` has `k` items and `l[-k:] = items` (as many items) replaces exactly the last `k` -/
+theorem slice_tail_length {α} (l : List α) (k : Nat) (hk : k ≤ l.length) (hk1 : 1 ≤ k) :
+    (Py.slice l (some (-(k : Int))) none).length = k := by
+  simp only [Py.slice, Py.startIdx, Py.stopIdx, clampIdx_neg _ _ hk hk1, List.length_take, List.length_drop]
+  omega
+
+theorem setSlice_tail {α} (l items : List α) (k : Nat) (hk : k ≤ l.length) (hk1 : 1 ≤ k) (hlen : items.length = k) :
+    Py.setSlice l (some (-(k : Int))) none items = some (l.take (l.length - k) ++ items) := by
+  simp only [Py.setSlice, Py.startIdx, Py.stopIdx, clampIdx_neg _ _ hk hk1]
+  have h1 : l.length - (l.length - k) = items.length := by omega
+  have h2 : l.length - k + items.length = l.length := by omega
+  simp only [h1, if_true, h2, List.drop_length, List.append_nil]
+
 /-! ### the search loop on the array -/
 
 /-- the loop of `add_candle` that looks for an older candle, run on the array from step `i` with the rows behind
